@@ -42,6 +42,9 @@ pub enum Case {
         /// 4 = <0,4,0,2,0> (the largest Golomb modulus is 2^RICE, which no Rice entry covers)
         #[serde(default)]
         params: u8,
+        /// every multiplicity is multiplied by 2^scale (observed through update_many only): multiplicities beyond 2^32
+        #[serde(default)]
+        scale: u8,
     },
     /// `threads` OS threads write their share of the items through one shared wrapper
     Threads { items: Vec<(u64, u32)>, threads: u8 },
@@ -52,7 +55,7 @@ pub const DEF: PropDef = PropDef {
     rule: "Cases are multisets of (value, multiplicity) pairs (small values, values around powers of two, large values; built with a running \
 budget so that every tracked total stays below 2^62, D13), a random split into 1..=8 partial statistics, a way of combining them (add, +=, +, \
 sum), a way of observing (update one by one, update_many, CodesStatsWrapper on writes, CodesStatsWrapper on reads), default or non-default \
-const parameters (CodesStats<3,5,2,4,6>, <2,40,3,2,1> with more Golomb moduli than 2^RICE, <0,0,0,0,0>, <1,1,1,1,1>, <0,4,0,2,0>; every value below 64 and every pair of values below 8 on each of them). Oracle: per tracked code the total equals the sum of reference lengths (u128) with the index mapping \
+const parameters (CodesStats<3,5,2,4,6>, <2,40,3,2,1> with more Golomb moduli than 2^RICE, <0,0,0,0,0>, <1,1,1,1,1>, <0,4,0,2,0>; every value below 64 and every pair of values below 8 on each of them; multiplicities scaled by 2^31..2^40 through update_many). Oracle: per tracked code the total equals the sum of reference lengths (u128) with the index mapping \
 written from the documentation (zeta[i] = zeta_{i+1}, golomb[i] = b i+1, exp_golomb[i] = k i, rice[i] = log2_b i, pi[i] = k i+2), total = number \
 of elements, merging == observing the union, best_code() returns a code whose reference total is the minimum over all tracked totals with that \
 minimum as cost, and actually encoding the multiset with the returned Codes value through the library's writer produces exactly that many bits. \
@@ -82,10 +85,10 @@ struct RefTotals {
     pi: Vec<u128>,
 }
 
-fn ref_totals(items: &[(u64, u32)], nz: usize, ng: usize, ne: usize, nr: usize, np: usize) -> RefTotals {
+fn ref_totals(items: &[(u64, u32)], scale: u32, nz: usize, ng: usize, ne: usize, nr: usize, np: usize) -> RefTotals {
     let mut t = RefTotals { total: 0, unary: 0, gamma: 0, delta: 0, omega: 0, vbyte: 0, zeta: vec![0; nz], golomb: vec![0; ng], exp_golomb: vec![0; ne], rice: vec![0; nr], pi: vec![0; np] };
     for &(v, c) in items {
-        let c = c as u128;
+        let c = (c as u128) << scale;
         let l = |code: Code| refcodes::len(code, v) as u128;
         t.total += c;
         t.unary += (v as u128 + 1) * c;
@@ -132,8 +135,8 @@ fn tracked(t: &RefTotals) -> Vec<(Code, u128)> {
     v
 }
 
-fn compare<const Z: usize, const G: usize, const E: usize, const RR: usize, const P: usize>(s: &CodesStats<Z, G, E, RR, P>, items: &[(u64, u32)], how: &str) -> Result<(), Failure> {
-    let t = ref_totals(items, Z, G, E, RR, P);
+fn compare<const Z: usize, const G: usize, const E: usize, const RR: usize, const P: usize>(s: &CodesStats<Z, G, E, RR, P>, items: &[(u64, u32)], scale: u32, how: &str) -> Result<(), Failure> {
+    let t = ref_totals(items, scale, Z, G, E, RR, P);
     let ck = |name: String, got: u64, exp: u128| -> Result<(), Failure> {
         if got as u128 != exp {
             Err(Failure::new(format!("total/{}", name.split('[').next().unwrap()), format!("{} ({}): statistics hold {}, reference {} for items {:?}", name, how, got, exp, &items[..items.len().min(6)])))
@@ -175,7 +178,7 @@ fn compare<const Z: usize, const G: usize, const E: usize, const RR: usize, cons
     let mut bits: u128 = 0;
     for &(v, c) in items {
         let (_, l) = d_write(En::LE, Disp::CodesDyn, named, None, 0, v).map_err(|e| Failure::new("best_code/encode", e))?;
-        bits += l as u128 * c as u128;
+        bits += l as u128 * ((c as u128) << scale);
     }
     if bits != cost as u128 {
         return Err(Failure::new("best_code/real_encoding", format!("encoding the multiset with {:?} takes {} bits, best_code() promised {}", code, bits, cost)));
@@ -183,7 +186,7 @@ fn compare<const Z: usize, const G: usize, const E: usize, const RR: usize, cons
     Ok(())
 }
 
-fn observe<const Z: usize, const G: usize, const E: usize, const RR: usize, const P: usize>(items: &[(u64, u32)], via: Via) -> Result<CodesStats<Z, G, E, RR, P>, Failure> {
+fn observe<const Z: usize, const G: usize, const E: usize, const RR: usize, const P: usize>(items: &[(u64, u32)], scale: u32, via: Via) -> Result<CodesStats<Z, G, E, RR, P>, Failure> {
     let mut s = CodesStats::<Z, G, E, RR, P>::default();
     match via {
         Via::Update => {
@@ -197,7 +200,7 @@ fn observe<const Z: usize, const G: usize, const E: usize, const RR: usize, cons
         }
         Via::UpdateMany => {
             for &(v, c) in items {
-                if s.update_many(v, c as u64) != v {
+                if s.update_many(v, (c as u64) << scale) != v {
                     fail!("update/ret", "update_many({}) did not return its argument", v);
                 }
             }
@@ -235,7 +238,9 @@ fn observe<const Z: usize, const G: usize, const E: usize, const RR: usize, cons
     Ok(s)
 }
 
-fn seq<const Z: usize, const G: usize, const E: usize, const RR: usize, const P: usize>(items: &[(u64, u32)], assign: &[u8], parts: u8, via: Via, combine: Combine) -> Result<(), Failure> {
+fn seq<const Z: usize, const G: usize, const E: usize, const RR: usize, const P: usize>(items: &[(u64, u32)], assign: &[u8], parts: u8, via: Via, combine: Combine, scale: u32) -> Result<(), Failure> {
+    // multiplicities scaled by 2^scale only make sense through update_many
+    let (via, scale) = if scale > 0 { (Via::UpdateMany, scale.min(40)) } else { (via, 0) };
     let parts = parts.max(1) as usize;
     let mut groups: Vec<Vec<(u64, u32)>> = vec![vec![]; parts];
     for (i, it) in items.iter().enumerate() {
@@ -243,8 +248,8 @@ fn seq<const Z: usize, const G: usize, const E: usize, const RR: usize, const P:
     }
     let mut partials: Vec<CodesStats<Z, G, E, RR, P>> = vec![];
     for g in &groups {
-        let s = observe::<Z, G, E, RR, P>(g, via)?;
-        compare(&s, g, "partial")?;
+        let s = observe::<Z, G, E, RR, P>(g, scale, via)?;
+        compare(&s, g, scale, "partial")?;
         partials.push(s);
     }
     let merged: CodesStats<Z, G, E, RR, P> = match combine {
@@ -265,7 +270,7 @@ fn seq<const Z: usize, const G: usize, const E: usize, const RR: usize, const P:
         Combine::Plus => partials.iter().fold(CodesStats::<Z, G, E, RR, P>::default(), |a, b| a + *b),
         Combine::Sum => partials.iter().copied().sum(),
     };
-    compare(&merged, items, &format!("{} partials merged with {:?}, observed via {:?}", parts, combine, via)).map_err(|mut f| {
+    compare(&merged, items, scale, &format!("{} partials merged with {:?}, observed via {:?}", parts, combine, via)).map_err(|mut f| {
         f.sig = format!("merged/{}", f.sig);
         f
     })
@@ -274,14 +279,14 @@ fn seq<const Z: usize, const G: usize, const E: usize, const RR: usize, const P:
 pub fn check_case(c: &Case, _env: &Env) -> CheckResult {
     let mut o = Outcome::new();
     match c {
-        Case::Seq { items, assign, parts, via, combine, small_params, params } => {
+        Case::Seq { items, assign, parts, via, combine, small_params, params, scale } => {
             match (*params, *small_params) {
-                (1, _) => seq::<2, 40, 3, 2, 1>(items, assign, *parts, *via, *combine)?,
-                (2, _) => seq::<0, 0, 0, 0, 0>(items, assign, *parts, *via, *combine)?,
-                (3, _) => seq::<1, 1, 1, 1, 1>(items, assign, *parts, *via, *combine)?,
-                (4, _) => seq::<0, 4, 0, 2, 0>(items, assign, *parts, *via, *combine)?,
-                (_, true) => seq::<3, 5, 2, 4, 6>(items, assign, *parts, *via, *combine)?,
-                _ => seq::<10, 20, 10, 10, 10>(items, assign, *parts, *via, *combine)?,
+                (1, _) => seq::<2, 40, 3, 2, 1>(items, assign, *parts, *via, *combine, *scale as u32)?,
+                (2, _) => seq::<0, 0, 0, 0, 0>(items, assign, *parts, *via, *combine, *scale as u32)?,
+                (3, _) => seq::<1, 1, 1, 1, 1>(items, assign, *parts, *via, *combine, *scale as u32)?,
+                (4, _) => seq::<0, 4, 0, 2, 0>(items, assign, *parts, *via, *combine, *scale as u32)?,
+                (_, true) => seq::<3, 5, 2, 4, 6>(items, assign, *parts, *via, *combine, *scale as u32)?,
+                _ => seq::<10, 20, 10, 10, 10>(items, assign, *parts, *via, *combine, *scale as u32)?,
             }
             if *parts > 1 {
                 o.nt("several_partials");
@@ -291,6 +296,9 @@ pub fn check_case(c: &Case, _env: &Env) -> CheckResult {
             }
             if items.iter().any(|x| x.0 >= 1 << 32) {
                 o.nt("value_ge_2^32");
+            }
+            if *scale > 0 {
+                o.nt("multiplicities_beyond_2^32");
             }
             if *small_params || *params != 0 {
                 o.label("non_default_const_parameters");
@@ -315,16 +323,21 @@ pub fn check_case(c: &Case, _env: &Env) -> CheckResult {
                     sc.spawn(move || {
                         let mut bw = BufBitWriter::<LE, _>::new(MemWordWriterVec::new(Vec::<u64>::new()));
                         barrier.wait();
+                        // even threads go through the dynamic-dispatch impl of the wrapper, odd ones through the static one
                         for (v, c) in mine {
                             for _ in 0..c {
-                                DynamicCodeWrite::write(w, &mut bw, v).unwrap();
+                                if k % 2 == 0 {
+                                    DynamicCodeWrite::write(w, &mut bw, v).unwrap();
+                                } else {
+                                    StaticCodeWrite::<LE, _>::write(w, &mut bw, v).unwrap();
+                                }
                             }
                         }
                     });
                 }
             });
             let (_c, st) = w.into_inner();
-            compare(&st, items, &format!("{} threads through one shared wrapper", t)).map_err(|mut f| {
+            compare(&st, items, 0, &format!("{} threads through one shared wrapper", t)).map_err(|mut f| {
                 f.sig = format!("threads/{}", f.sig);
                 f
             })?;
@@ -371,7 +384,7 @@ pub fn gen_case(s: &mut Src) -> Case {
     let items = gen_items(s, 24, max_mult);
     let parts = s.range(1, 8) as u8;
     let assign = (0..items.len()).map(|_| s.u8()).collect();
-    Case::Seq { items, assign, parts, via, combine: s.pick(&[Combine::Add, Combine::AddAssign, Combine::Plus, Combine::Sum]), small_params: s.below(4) == 0, params: [0u8, 0, 0, 0, 1, 4, 2, 3][s.below(8)] }
+    Case::Seq { items, assign, parts, via, combine: s.pick(&[Combine::Add, Combine::AddAssign, Combine::Plus, Combine::Sum]), small_params: s.below(4) == 0, params: [0u8, 0, 0, 0, 1, 4, 2, 3][s.below(8)], scale: 0 }
 }
 
 fn run(ctx: &Ctx, env: &Env) -> Stats {
@@ -396,18 +409,28 @@ fn run(ctx: &Ctx, env: &Env) -> Stats {
         for params in 0..=4u8 {
             for v in 0..64u64 {
                 for mult in [1u32, 5] {
-                    part.check(&Case::Seq { items: vec![(v, mult)], assign: vec![0], parts: 1, via: Via::UpdateMany, combine: Combine::Add, small_params: false, params }, &f);
+                    part.check(&Case::Seq { items: vec![(v, mult)], assign: vec![0], parts: 1, via: Via::UpdateMany, combine: Combine::Add, small_params: false, params, scale: 0 }, &f);
                 }
             }
             for a in 0..8u64 {
                 for b in a..8u64 {
-                    part.check(&Case::Seq { items: vec![(a, 1), (b, 1)], assign: vec![0, 1], parts: 2, via: Via::Update, combine: Combine::Sum, small_params: false, params }, &f);
+                    part.check(&Case::Seq { items: vec![(a, 1), (b, 1)], assign: vec![0, 1], parts: 2, via: Via::Update, combine: Combine::Sum, small_params: false, params, scale: 0 }, &f);
+                }
+            }
+        }
+        // multiplicities of 2^32 and beyond (update_many only), small values, every parameter set
+        for params in 0..=4u8 {
+            for scale in [31u8, 32, 33, 40] {
+                for v in [0u64, 1, 2, 5, 15] {
+                    for (mult, parts) in [(1u32, 1u8), (3, 1), (1, 2)] {
+                        part.check(&Case::Seq { items: vec![(v, mult), (v + 1, 1)], assign: vec![0, 1], parts, via: Via::UpdateMany, combine: Combine::AddAssign, small_params: false, params, scale }, &f);
+                    }
                 }
             }
         }
         for (k, v) in vals.into_iter().enumerate() {
             let via = if k % 2 == 0 { Via::Update } else { Via::UpdateMany };
-            part.check(&Case::Seq { items: vec![(v, 1 + (k % 3) as u32)], assign: vec![0], parts: 1, via, combine: Combine::Add, small_params: k % 5 == 0, params: [0u8, 0, 1, 0, 2, 0, 3][k as usize % 7] }, &f);
+            part.check(&Case::Seq { items: vec![(v, 1 + (k % 3) as u32)], assign: vec![0], parts: 1, via, combine: Combine::Add, small_params: k % 5 == 0, params: [0u8, 0, 1, 0, 2, 0, 3][k as usize % 7], scale: 0 }, &f);
         }
         part.finish()
     }));
